@@ -1,4 +1,4 @@
-"""Citation-kind alphabet: 21 letters, each a snippet from which the real extractor builds the object."""
+"""Citation-kind alphabet: 23 letters, each a snippet from which the real extractor builds the object."""
 
 ALPHA = [
     # name, snippet, class name, index among citations of that class in the snippet
@@ -7,6 +7,7 @@ ALPHA = [
     ("FB", "Gamma v. Delta, 10 U.S. 200 (2001).", "FullCaseCitation", 0),  # same reporter+volume as A
     ("FC", "Alpha v. Omega, 30 F.2d 300 (1950).", "FullCaseCitation", 0),  # shares a party name with A
     ("FP", "Sigma v. Tau, 585 U.S. ___ (2018).", "FullCaseCitation", 0),  # placeholder page
+    ("FH", "Eta v. Theta, 10 Hill 100.", "FullCaseCitation", 0),  # ambiguous reporter string (several 'Hill' reporters), no year
     ("LAW", "Mass. Gen. Laws ch. 1, § 2.", "FullLawCitation", 0),
     ("JRN", "1 Minn. L. Rev. 1.", "FullJournalCitation", 0),
     ("JP", "1 Minn. L. Rev. ___.", "FullJournalCitation", 0),  # journal with a placeholder page
@@ -14,6 +15,7 @@ ALPHA = [
     ("S_amb", "10 U.S., at 102.", "ShortCaseCitation", 0),  # no antecedent
     ("S_C", "30 F.2d at 301.", "ShortCaseCitation", 0),  # unique to C
     ("S_for", "77 F.3d at 5.", "ShortCaseCitation", 0),  # foreign
+    ("S_Cr", "10 Cranch, at 55.", "ShortCaseCitation", 0),  # another ambiguous reporter string, same volume as FH
     ("SU_B", "Delta, supra, at 201.", "SupraCitation", 0),  # unique name -> B
     ("SU_amb", "Alpha, supra, at 5.", "SupraCitation", 0),  # A and C share Alpha
     ("SU_unk", "Zeta, supra.", "SupraCitation", 0),
